@@ -63,7 +63,7 @@ func RunC18(k *fw.Case) {
 		n := 1 + r.Intn(8)
 		usedInj := 0
 		var b strings.Builder
-		fmt.Fprintf(&b, "rule \"%s\" salience %d\nbegin\n  st(%d)\n  conc {\n", cr.name, 100-i, cr.base)
+		fmt.Fprintf(&b, "rule \"%s\" salience %d\nbegin\n  st(%d)\n  pre1 = %d\n  pre2 = %d\n  conc {\n", cr.name, 100-i, cr.base, 7000+i, 8000+i)
 		var after strings.Builder
 		failProb := 0.0
 		if r.Intn(3) == 0 {
@@ -85,6 +85,11 @@ func RunC18(k *fw.Case) {
 					m.Text = fmt.Sprintf("%s = 1 / fl(%d)", m.Target, m.ID)
 				} else {
 					m.Text = fmt.Sprintf("%s = ev(%d, %d)", m.Target, m.ID, m.Val)
+					if r.Intn(2) == 0 {
+						// the right-hand side reads a local assigned before the block while siblings write locals
+						m.Val = int64(7000 + i)
+						m.Text = fmt.Sprintf("%s = ev(%d, pre1)", m.Target, m.ID)
+					}
 					fmt.Fprintf(&after, "  rv(%d, %s)\n", m.ID, m.Target)
 				}
 			case "assign-injected":
@@ -100,6 +105,8 @@ func RunC18(k *fw.Case) {
 			case "func":
 				if m.Fail {
 					m.Text = fmt.Sprintf("pn(%d)", m.ID)
+				} else if r.Intn(2) == 0 {
+					m.Text = fmt.Sprintf("ev(%d, pre2)", m.ID)
 				} else {
 					m.Text = fmt.Sprintf("en(%d)", m.ID)
 				}
@@ -178,7 +185,7 @@ func RunC18(k *fw.Case) {
 		return map[string]interface{}{"rule": cr.text, "events": strings.Join(es, " "), "gomaxprocs": procs, "err": fmt.Sprint(eerr)}
 	}
 	anyFail := false
-	pos := map[int][]int{}   // id -> seqs of end events
+	pos := map[int][]int{} // id -> seqs of end events
 	kinds := map[int][]byte{}
 	start := map[int][]int{} // id -> seqs of 's'
 	for _, e := range evs {
